@@ -19,7 +19,7 @@ step monitor at that time; the masks grow by exactly that; successive collapses 
 later cost call and the final solution satisfy the applied relations exactly; Solve returns inside
 the generation budget.
 """
-import math, types, copy
+import types, copy
 import numpy as np
 from hypothesis import strategies as st
 from vp.runner import Test
@@ -41,13 +41,18 @@ ASSUME = ["the oracle reproduces the documented inequalities with the same float
           "collapse_cost is checked by a validity predicate (no sampled point within `limit` of the minimum lies outside "
           "the returned intervals) and idempotence, not by re-deriving its interval construction",
           "product-measure monitors with unequal points per measure are outside the domain of "
-          "Monitor.get_wts/get_pos (rectangular reshape); only 'raises ValueError' is asserted, and only for shapes "
-          "whose total is not divisible by the number of measures (others reshape silently to a wrong layout)",
+          "Monitor.get_wts/get_pos (rectangular reshape; get_ipos offsets every measure by npts[0]); only 'raises "
+          "ValueError/IndexError/TypeError' is asserted, and only for shapes whose total is not divisible by the number "
+          "of measures (others, e.g. npts=(1,3), reshape silently to a wrong layout - noted, not asserted)",
           "when CollapseAt and CollapseAs fix one index at two different values (x[i]=a, x[j]=b, x[i]=x[j], a!=b) no point "
           "can satisfy all relations; such groups are excluded from the exact check and only 'every member sits at one of "
           "the fixed values' is asserted",
           "CollapseAs(offset=True): the relation asserted after the collapse is the loose one, | |x[j]-x[i]| - d | <= "
-          "tolerance with d the distance at collapse time",
+          "tolerance with d the distance at collapse time (and parameters fixed in the same run stay fixed)",
+          "CollapseAt(target=None): the value a parameter is fixed at is bestSolution[i] at the time of the Collapse() "
+          "call (tools.select_params), read by the wrapper just before the call",
+          "a Solve whose Collapse() is called more often than there are distinct collapses is aborted by the wrapper "
+          "and reported as C11.solve_returns (otherwise a non-growing mask would hang the check)",
           "the solver's step monitor (rows seen by the detectors) is trusted as the record of the history (C03)"]
 
 POOL = [0.0, 1.0, -1.0, 0.5, 2.0, 0.25, -2.5, 3.0]
@@ -392,12 +397,8 @@ def measure_cases(draw, tier):
     if unequal:
         # unequal points per measure with a total that is not divisible by the number of measures
         M = draw(st.integers(2, 3)); npts = [draw(st.integers(1, 3)) for _ in range(M)]
-        if sum(npts) % M == 0:
+        if sum(npts) % M == 0:          # (equal points per measure always have a divisible total)
             npts[0] += 1
-        if len(set(npts)) == 1:
-            npts[-1] += 1
-            if sum(npts) % M == 0:
-                npts[0] += M - 1 if M > 2 else 2
         rows = [[draw(st.sampled_from([0.0, 0.5, 1.0])) for _ in range(2 * sum(npts))] for _ in range(T)]
     return dict(kind=kind, npts=npts, rows=rows, tol=tol, gens=N, content=content, bad=bad, unequal=unequal)
 
@@ -851,6 +852,7 @@ def run_solver(case, ctx):
     where_final = [None]
     offset_failed = [False]
     dead = set()
+    noted = set()
 
     def check_point(x, rel, sub, where):
         for comp, vals in rel['comps']:
@@ -858,7 +860,8 @@ def run_solver(case, ctx):
                 continue
             if len(vals) > 1:           # contradictory relations: only 'one of them wins'
                 ok = all(x[i] in vals for i in comp)
-                ctx.exclude('conflicting-collapses')
+                if 'conflict' not in noted:
+                    noted.add('conflict'); ctx.exclude('conflicting-collapses')
                 if not ctx.expect(ok, sub, lambda: dict(where=where, x=list(x), group=comp, fixed_values=vals, cls=final_class(comp, rel, x),
                                                         why='conflicting group: member at none of the fixed values')):
                     dead.add(tuple(comp))           # a known finding: one report per group and case
